@@ -48,6 +48,7 @@ type vConn struct {
 	closeErr   error    // what Close returns (a failing DTLS / ICE teardown)
 	readDL     int
 	writeDL    int
+	onWrite    func() // runs inside Write, once: something another goroutine does while the writer is in the transport
 }
 
 type vConnErr struct{}
@@ -67,6 +68,10 @@ func (c *vConn) Read(b []byte) (int, error) {
 }
 
 func (c *vConn) Write(b []byte) (int, error) {
+	if f := c.onWrite; f != nil {
+		c.onWrite = nil
+		f()
+	}
 	c.writes++
 	c.lastWrite = append([]byte{}, b...)
 	if c.failWrites {
@@ -224,6 +229,11 @@ func vDecode(raw []byte) *packet {
 	if err := p.unmarshal(false, raw); err != nil {
 		vassert(false, "every emitted packet decodes locally")
 		return nil
+	}
+	for _, c := range p.chunks {
+		if d, ok := c.(*chunkPayloadData); ok {
+			vassert(len(d.userData) > 0, "every emitted DATA chunk carries user data (RFC 9260 3.3.1)")
+		}
 	}
 	return p
 }
